@@ -343,7 +343,12 @@ impl MultiState {
         force_draw |= orphan_visual_line_count > VisualLines::default();
         let mut drawable = match self.draw_target.drawable(force_draw, now) {
             Some(drawable) => drawable,
-            None => return Ok(()),
+            None => {
+                // Pending `println` text forces the draw: a refusal then means that the target
+                // shows nothing at all (a terminal that is not a tty), and that text is dropped too
+                self.orphan_lines.clear();
+                return Ok(());
+            }
         };
 
         let mut draw_state = drawable.state();
